@@ -71,6 +71,44 @@ def _laws(kind):
     return fn
 
 
+def _after_edit(kind):
+    """a pose object is used in every operation once, its stored components are then overwritten IN PLACE with new values,
+    and the laws must hold for the new values (no state cached on the object)"""
+
+    def fn(P, g):
+        np = P.np
+        cls = pose_cls(g, kind)
+        a = mk_pose(P, g, kind, "a", wrapped=True)
+        b = mk_pose(P, g, kind, "b", wrapped=True)
+        q = mk_pose(P, g, POINT_OF[kind], "q")
+        n = COMPACT[kind]
+        d = P.vector("d", n, lo=-0.4, hi=0.4)
+        # first use
+        _ = (a + b, a - b, b - a, a.inverse, a + q, a + d, a.copy(), a.to_compact())
+        if hasattr(a, "to_matrix"):
+            a.to_matrix()
+        for name in ("jacobian_boxplus", "jacobian_inverse"):
+            getattr(a, name)()
+        a.jacobian_self_oplus_other_wrt_self(b)
+        a.jacobian_self_ominus_other_wrt_other(b)
+        # in-place edit
+        new = mk_pose(P, g, kind, "anew", wrapped=True)
+        a[:] = new.to_array()
+        Ma, Mb = ref_matrix(P, g, kind, a), ref_matrix(P, g, kind, b)
+        P.check_eq("matrix_hom_after_edit", ref_matrix(P, g, kind, a + b), np.dot(Ma, Mb))
+        P.check_eq("ominus_after_edit", (b - a).to_array(), (a.inverse + b).to_array())
+        P.check_eq("inverse_after_edit", np.dot(ref_matrix(P, g, kind, a.inverse), Ma), np.eye(len(Ma)))
+        m = COMPACT[POINT_OF[kind]]
+        hom = np.array([q[i] for i in range(m)] + [1.0])
+        P.check_eq("point_after_edit", (a + q).to_array(), np.dot(Ma, hom)[:m])
+        P.check_eq("equals_fresh_pose", (a + b).to_array(), (new + b).to_array())
+        P.check_eq("boxplus_after_edit", (a + d).to_array(), (new + d).to_array())
+        if hasattr(a, "to_matrix"):
+            P.check_eq("to_matrix_after_edit", a.to_matrix(), Ma)
+
+    return fn
+
+
 def _assoc(kind):
     def fn(P, g):
         a = mk_pose(P, g, kind, "a")
@@ -134,6 +172,7 @@ def cases(tier):
     v = 2 if tier == "quick" else 6
     for k in POSE_KINDS:
         out.append(Case("laws-" + k, _laws(k), timeout=20, old_timeout=30, validate=v))
+        out.append(Case("after-edit-" + k, _after_edit(k), timeout=20, old_timeout=30, validate=v))
         out.append(Case("assoc-" + k, _assoc(k), timeout=10, old_timeout=60, validate=v))
         out.append(Case("point-" + k, _point(k), timeout=20, validate=v))
         out.append(Case("boxplus-" + k, _boxplus(k), timeout=20, validate=v))
